@@ -1,5 +1,6 @@
 import GomlVerif.Model.Match
 import GomlVerif.Driver.DecSyntax
+import GomlVerif.Driver.DecSrc
 /-!
 `gomlmodel c06`: for every match site dumped by `gv c06`
 * L1 tie: run `Model/Match.lean` on the site's patterns and compare its Core with the real Core
@@ -249,6 +250,98 @@ structure SiteIn where
   /-- expected result for a value, from the source patterns alone -/
   expect : Val → String
 
+/-! ### the patterns AS WRITTEN (surface syntax, `harness/src/astdump.rs`): first-match meaning that
+does not go through the typer's elaboration — constructors are resolved by NAME against the type
+of the value, struct sub-patterns are bound BY FIELD NAME -/
+
+/-- `x/3` (hir's unique spelling of a local) ↦ `x` -/
+def hintOf (x : String) : String := (x.splitOn "/").headD x
+
+def lastSeg (path : List String) : String := path.getLast?.getD ""
+
+/-- does the type name of a value denote the type the pattern's path names (`T`, `Pkg::T`)? -/
+def tyNamed (ty seg : String) : Bool := ty == seg || ty.endsWith ("::" ++ seg)
+
+def srcLitMatches (l : Src.Lit) (v : Val) : Bool :=
+  match l, v with
+  | .unit, .unit => true
+  | .bool a, .bool b => a == b
+  | .int none text, .int _ _ n => text.toInt? == some n
+  | .int (some (b, s)) text, .int b' s' n => b == b' && s == s' && text.toInt? == some n
+  | .str a, .str b => a == b
+  | _, _ => false
+
+mutual
+/-- `vars`: the hints the typed pattern binds (a bare identifier that is not among them is a
+    nullary constructor) -/
+partial def matchSrc (S : Sig) (vars : List String) : Src.Pat → Val → Option (List (String × Val))
+  | .wild, _ => some []
+  | .var x, v =>
+    if vars.contains x then some [(x, v)]
+    else match v with
+      | .enumV ty idx args =>
+        match findEnum S ty with
+        | some d => if (d.variants[idx]?.map (·.1)) == some x && args.isEmpty then some [] else none
+        | none => none
+      | _ => none
+  | .lit l, v => if srcLitMatches l v then some [] else none
+  | .tuple ps, v =>
+    match v with
+    | .tuple vs => if ps.length == vs.length then matchSrcs S vars ps vs else none
+    | _ => none
+  | .constr path ps, v =>
+    match v with
+    | .enumV ty idx args =>
+      match findEnum S ty with
+      | some d =>
+        if (d.variants[idx]?.map (·.1)) == some (lastSeg path) && ps.length == args.length
+            && (path.length < 2 || tyNamed ty (path.dropLast.getLast?.getD ""))
+        then matchSrcs S vars ps args else none
+      | none => none
+    | _ => none
+  | .struct path fps, v =>
+    match v with
+    | .structV ty vals =>
+      if tyNamed ty (lastSeg path) then
+        match findStruct S ty with
+        | some d => matchSrcFields S vars (d.fields.map (·.1)) vals fps
+        | none => none
+      else none
+    | _ => none
+partial def matchSrcs (S : Sig) (vars : List String) : List Src.Pat → List Val → Option (List (String × Val))
+  | [], _ => some []
+  | _ :: _, [] => none
+  | p :: ps, v :: vs => do
+    let a ← matchSrc S vars p v
+    let b ← matchSrcs S vars ps vs
+    pure (a ++ b)
+/-- every written field pattern is matched against the field OF THAT NAME -/
+partial def matchSrcFields (S : Sig) (vars : List String) (decl : List String) (vals : List Val) :
+    List Src.FieldPat → Option (List (String × Val))
+  | [] => some []
+  | .mk f p :: rest => do
+    let i ← decl.findIdx? (· == f)
+    let v ← vals[i]?
+    let a ← matchSrc S vars p v
+    let b ← matchSrcFields S vars decl vals rest
+    pure (a ++ b)
+end
+
+/-- the marker's result from the bindings of the written pattern: the typed pattern only says
+    which variables the marker lists, their values come from the written pattern -/
+def expectMarkerSrc (i : Nat) (p : Pat) (σ : List (String × Val)) : String :=
+  let vals := (patVars p).map (fun v => (lookupEnv σ (hintOf v.1)).getD (.fn "unbound"))
+  s!"ok {markerTag i} {showVal (.tuple (.int 32 true i :: vals))}"
+
+def armsExpectSrc (S : Sig) (arms : List Pat) (written : List Src.Pat) (v : Val) : String :=
+  let rec go (i : Nat) : List Pat → List Src.Pat → String
+    | p :: ps, w :: ws =>
+      match matchSrc S ((patVars p).map (fun x => hintOf x.1)) w v with
+      | some σ => expectMarkerSrc i p σ
+      | none => go (i + 1) ps ws
+    | _, _ => "panic:missing "
+  go 0 arms written
+
 def expectMarker (i : Nat) (p : Pat) (σ : List (String × Val)) : String :=
   let vals := (patVars p).map (fun v => (lookupEnv σ v.1).getD (.fn "unbound"))
   s!"ok {markerTag i} {showVal (.tuple (.int 32 true i :: vals))}"
@@ -297,8 +390,27 @@ def runModel (S : Sig) (si : SiteIn) : M (DT Expr × Expr) :=
 
 def sitePats (si : SiteIn) : List Pat := si.rows.flatMap (fun r => r.cols.map (·.2))
 
-def runSite (S : Sig) (depth cap : Nat) (site : Site) (real : String × String) : String :=
+/-- expected result from the patterns as written (when the site is aligned with the surface syntax) -/
+def expectSrc (S : Sig) (site : Site) (written : List Src.Pat) (v : Val) : String :=
+  match site, written with
+  | .matchS _ _ arms, ws => armsExpectSrc S arms ws v
+  | .letBlock _ p, [w] =>
+    match matchSrc S ((patVars p).map (fun x => hintOf x.1)) w v with
+    | some σ => expectMarkerSrc 0 p σ
+    | none => "panic:missing "
+  | .letAlone _ p, [w] =>
+    match matchSrc S ((patVars p).map (fun x => hintOf x.1)) w v with
+    | some _ => "ok  ()"
+    | none => "panic:missing "
+  | _, _ => "misaligned"
+
+def runSite (S : Sig) (depth cap : Nat) (site : Site) (real : String × String)
+    (written : Option (List Src.Pat)) : String :=
   let si := mkSite site
+  -- the SOURCE side of the oracle: the written patterns when available, else the typed ones
+  let want : Val → String := match written with
+    | some ws => expectSrc S site ws
+    | none => si.expect
   let model := runModel S si
   let pats := sitePats si
   let pool : Pool :=
@@ -309,7 +421,9 @@ def runSite (S : Sig) (depth cap : Nat) (site : Site) (real : String × String) 
     let nconf := vals.filter (fun v => !(pats.all (fun p => conf S p v)))
     let fresh := !(isGenName si.x)
     let lo := match model with | .ok (t, _) => leavesOK t | .error _ => true
-    s!"conf-fail={nconf.length} fresh={fresh} leavesOK={lo}"
+    -- does the typer's elaboration of the patterns mean what the written patterns mean?
+    let elabDiff := vals.filter (fun v => want v != si.expect v)
+    s!"conf-fail={nconf.length} fresh={fresh} leavesOK={lo} source={if written.isSome then "written" else "typed"} elab-diff={elabDiff.length}"
   match real.1 with
   | "CORE" =>
     match (Sexp.parse real.2).bind decExpr with
@@ -321,7 +435,7 @@ def runSite (S : Sig) (depth cap : Nat) (site : Site) (real : String × String) 
       -- oracle on the real Core
       let bad := vals.filterMap fun v =>
         let got := showRes (Sem.eval 100000 { fns := [] } [(si.scrutVar, v)] {} core)
-        let want := si.expect v
+        let want := want v
         if got == want then none else some s!"value={showVal v} got=[{got}] want=[{want}]"
       let orc := match bad with
         | [] => "ok"
@@ -333,7 +447,7 @@ def runSite (S : Sig) (depth cap : Nat) (site : Site) (real : String × String) 
       | .error e => "model-error:" ++ errStr e
       | .ok _ => "diff:model-accepts"
     -- rejected at compile time: is there a value no arm matches?
-    let wit := vals.find? (fun v => si.expect v == "panic:missing ")
+    let wit := vals.find? (fun v => want v == "panic:missing ")
     s!"{l1}\trejected\t{vals.length}\t{hyp} unmatched-witness={(wit.map showVal).getD "none"}"
   | "PANIC" =>
     let l1 := match model with
@@ -355,9 +469,14 @@ def main : IO Unit := do
       match (Sexp.parse sx).bind decSig with
       | some S => sigRef.set S
       | none => IO.println s!"#sig-decode-error"
-    | [id, "SITE", sx, kind, payload] =>
+    | id :: "SITE" :: sx :: kind :: payload :: rest =>
+      let written : Option (List Src.Pat) := do
+        let w ← rest.head?
+        match ← Sexp.parse w with
+        | .list (.atom "written" :: ps) => optMapM DecSrc.decPat ps
+        | _ => none
       match (Sexp.parse sx).bind decSite with
-      | some site => IO.println s!"{id}\t{runSite (← sigRef.get) depth cap site (kind, payload)}"
+      | some site => IO.println s!"{id}\t{runSite (← sigRef.get) depth cap site (kind, payload) written}"
       | none => IO.println s!"{id}\tsite-decode-error\tskipped\t0\t"
     | _ => pure ()
 
